@@ -461,7 +461,23 @@ func %s() {
 const c20Entries = `
 func viaEntry(entry string, w *world, text string) error {
 	apis := map[string]interface{}{}
+	// the text without its leading blank lines (the same rules, three lines higher up)
+	first := 0
+	for first < len(text) && (text[first] == '\n' || text[first] == ' ') {
+		first++
+	}
+	unlead := text[first:]
 	switch entry {
+	case "resend":
+		// the rules were installed from the unshifted text, then re-sent unchanged but shifted
+		rb := builder.NewRuleBuilder(w.dc)
+		if e := rb.BuildRuleFromString(unlead); e != nil {
+			vnd.Assert(false, "build must succeed")
+		}
+		if e := rb.BuildRuleWithIncremental(text); e != nil {
+			vnd.Assert(false, "incremental build must succeed")
+		}
+		return engine.NewGengine().Execute(rb, true)
 	case "incremental":
 		rb := builder.NewRuleBuilder(w.dc)
 		if e := rb.BuildRuleFromString("rule \"seed\" salience -100 begin\n ev(\"seed\")\nend\n"); e != nil {
@@ -490,6 +506,11 @@ func viaEntry(entry string, w *world, text string) error {
 		gp, e = engine.NewGenginePool(1, 2, engine.SortModel, seed, apis)
 		if e == nil {
 			e = gp.UpdatePooledRules(text)
+		}
+	case "poolresend":
+		gp, e = engine.NewGenginePool(1, 2, engine.SortModel, unlead, apis)
+		if e == nil {
+			e = gp.UpdatePooledRulesIncremental(text)
 		}
 	default:
 		gp, e = engine.NewGenginePool(1, 2, engine.SortModel, seed, apis)
@@ -570,7 +591,7 @@ func %s() {
 		if !(fc.id == "zerodiv_assign" || fc.id == "strless_if" || fc.id == "intand_elseif" || fc.id == "boom_forbody" || fc.id == "nilmapwrite" || fc.id == "zerodiv_conc" || fc.id == "rangeint") {
 			continue
 		}
-		for _, entry := range []string{"incremental", "poolctor", "poolupdate", "poolincremental"} {
+		for _, entry := range []string{"incremental", "poolctor", "poolupdate", "poolincremental", "resend", "poolresend"} {
 			name := "E_" + fc.id + "_" + entry
 			lead := "\n   \n\n"
 			fmt.Fprintf(&b, `
